@@ -413,6 +413,50 @@ func runC01(r *Run) {
 			return c
 		}, w) + `>x</p >`)
 	}
+	// ---------- rcdata: the content of <textarea> / <title> as x/net/html's tokenizer reads it ----------
+	{
+		rc := func(tag, content string) {
+			z := html.NewTokenizerFragment(strings.NewReader(content), tag)
+			text := ""
+			tt := z.Next()
+			if tt == html.TextToken {
+				text = string(z.Raw())
+			}
+			// the character data ends before the end of the content exactly when an end tag of the element was found
+			// (what follows it - an end tag token, or an unfinished tag at the end of input - is not compared)
+			closed := len(text) < len(content)
+			r.Case("rcdata", "CRc "+coqBytes(tag)+" "+coqBytes(content), L(A(text), B(closed)), map[string]any{"tag": tag, "content": content}, map[string]string{},
+				strings.Contains(content, "<"))
+		}
+		pieces := []string{"</textarea", "</TEXTAREA", "</TextArea", "</title", "</textare", "</", "<", "/", ">", " ", "x", "&lt;", "\n", "</textarea>", "a"}
+		depth := 3
+		if r.Thorough() {
+			depth = 4
+		}
+		var rec func(p string, d int)
+		rec = func(p string, d int) {
+			if p != "" {
+				rc("textarea", p)
+				if d%2 == 1 {
+					rc("title", p)
+				}
+			}
+			if d == depth {
+				return
+			}
+			for _, x := range pieces {
+				rec(p+x, d+1)
+			}
+		}
+		rec("", 0)
+		// what the serialiser writes for hostile values: never closed before its own end tag
+		for i := 0; i < 200; i++ {
+			v := Pick(r.Rng, all) + Pick(r.Rng, []string{"</textarea>", "</TEXTAREA >", "</title>", "<!--", "</textarea/", ""}) + Pick(r.Rng, all)
+			tag := Pick(r.Rng, []string{"textarea", "title"})
+			rc(tag, stdhtml.EscapeString(v)+"</"+tag+">")
+			rc(tag, v+"</"+tag+">")
+		}
+	}
 	// ---------- the miniature evaluator of Model/Hole.v ----------
 	c01Mini(r)
 
